@@ -15,9 +15,17 @@ RULE = ("cases = closed-loop link partner (sequence advertisement, LCRD A-D, LGO
         "wrong / duplicate / early LGOODs, unsolicited LBAD/LRTY/LGO_U, corrupted command words; three credit time-outs")
 ASSUMPTIONS = [
     "data_sink idle (valid = 0): DATA headers are followed by a zero-length or aborted payload; payload streaming is C36",
-    "theorems: the partner never advertises more than four credits beyond the headers it was sent (no counter wrap)",
+    "model = the REPAIRED transmitter (fix b52a16f, /repo main 1908059)",
+    "the link stays up; the partner acknowledges only outstanding headers and never holds out more credits than "
+    "4 + acknowledged headers (its four buffers); mismatching LCRD/LGOOD are allowed and proved to request recovery",
 ]
-PARTIAL = ""
+PARTIAL = ("lbad_retransmits_all_unacked_in_order_with_dl is proved as one-step facts (reload of read pointer / counter / "
+           "retry_pending on every LBAD, no dequeue by a packet in flight, WAIT_FOR_RETRY offers buffers[read pointer] with "
+           "DL, waits for lrty_pending, advances by one per completion) plus the invariant that the buffers from the "
+           "acknowledge pointer hold the unacknowledged headers in order; their composition over unbounded waiting times "
+           "into a statement about the sequence of headers on the wire is not proved and is checked by the monitor "
+           "(retry-order, retry-dl) on every trace.  DATA payload streaming (data_sink active) is out of scope (C36); "
+           "link re-entry of the transmitter is outside the property (monitor stops at link-down)")
 
 IN_NAMES = ["sink_valid", "sink_data", "sink_ctrl", "source_ready", "enable", "queue_valid", "q_dw0", "q_dw1", "q_dw2",
             "q_dw3", "lrty_pending"]
@@ -274,6 +282,11 @@ class Monitor:
                         if i[I_EN]:
                             credits_rx += 1
                             next_letter = (next_letter + 1) % 4
+                            if credits_rx > 4 + retired + sum(1 for p in pending if p[0] == "retire"):
+                                # more credits than the partner has buffers: outside the environment (the four
+                                # transmit buffers would be overwritten)
+                                self.tags.add("env:more-credits-than-buffers")
+                                return
                         self.tags.add("credit")
                     else:
                         want["rec"] = 1
